@@ -15,6 +15,20 @@ request handlers are cooperative tasks on the same pool and need a worker that i
 def lostWorkers (workers occupiers : Nat) : Nat := min workers occupiers
 def serves (workers occupiers : Nat) : Bool := decide (lostWorkers workers occupiers < workers)
 
+/-- threads the blocking pool may grow to, given the number of async workers -/
+def poolSize : Pool → Nat → Nat
+  | .default, _ => 512
+  | .const n, _ => n
+  | .perWorker k, w => w * k
+  | .workersPlus k, w => w + k
+
+/-- the never-ending `spawn_blocking` duties, each of which keeps one thread of the blocking pool for good -/
+def blockingDuties (ds : List Spawn) : Nat := (ds.filter (· == .blockingPool)).length
+
+/-- decidable form of "for every worker count from one upward the pool has a thread for each of `n` never-ending duties":
+the pool is smallest with one worker -/
+def poolOk (p : Pool) (n : Nat) : Bool := decide (n ≤ poolSize p 1)
+
 /-! ### lock order (C14) -/
 
 def lockRank : Lock → Nat
